@@ -81,14 +81,35 @@ class RunWorld:
             raise self.exc(v[1])
         return v[1]
 
-    def fn_of(self, site, name, script, params=()):
+    def whose(self):
+        """who is running (the concurrency driver says which task or thread; one caller here)"""
+        return None
+
+    def fn_of(self, site, name, script, params=(), capture=False, old=None):
+        """capture: what is captured names the caller; old: a postcondition that reads these snapshots and holds only if
+        every one of them was captured by *this* caller (OLD belongs to the call)"""
         W = self
+
+        def finish(v, OLD=None):
+            if capture:
+                return ("captured-by", W.whose())
+            if old:
+                return v and all(getattr(OLD, n) == ("captured-by", W.whose()) for n in old)
+            return v
         if self.is_async:
-            async def user():
-                return await W.aplay(site, name, script)
+            if old:
+                async def user(OLD):
+                    return finish(await W.aplay(site, name, script), OLD)
+            else:
+                async def user():
+                    return finish(await W.aplay(site, name, script))
         else:
-            def user():
-                return W.play(site, name, script)
+            if old:
+                def user(OLD):
+                    return finish(W.play(site, name, script), OLD)
+            else:
+                def user():
+                    return finish(W.play(site, name, script))
         user.__name__ = name
         user.__qualname__ = name
         return user
@@ -99,9 +120,10 @@ class RunWorld:
             func = self.fn_of(["body", f], "body_%d" % f, fd["body"])
             self.forig[f] = func
             for i, sc in enumerate(fd["post"]):
-                func = icontract.ensure(self.fn_of(["post", f, i], "post_%d_%d" % (f, i), sc))(func)
+                func = icontract.ensure(self.fn_of(["post", f, i], "post_%d_%d" % (f, i), sc,
+                                                   old=["s%d" % j for j in range(len(fd["snaps"]))]))(func)
             for i, sc in enumerate(fd["snaps"]):
-                func = icontract.snapshot(self.fn_of(["cap", f, i], "cap_%d_%d" % (f, i), sc), name="s%d" % i)(func)
+                func = icontract.snapshot(self.fn_of(["cap", f, i], "cap_%d_%d" % (f, i), sc, capture=True), name="s%d" % i)(func)
             for g, grp in enumerate(fd["pre"]):
                 for i, sc in enumerate(grp):
                     func = icontract.require(self.fn_of(["pre", f, g, i], "pre_%d_%d_%d" % (f, g, i), sc))(func)
